@@ -385,13 +385,19 @@ def predict_eff(ctx):
                'new rows are stamped with increments.index', f=f, node=n, key='index',
                why='new rows are not indexed by the increment times')
         okc = False
+        whyc = 'new rows do not carry the documented Trajectory columns'
         if cols:
             try:
                 okc = repo_cols(ctx, f, cols[0]) == ctx.repo.const('util.TRAJECTORY_COLS')
             except ValueError:
                 okc = False
+                whyc = ('the labels of the new rows are `%s`, a run-time value: the data is '
+                        'stacked positionally (lla, velocity, rph), so the labels must be the '
+                        'constant Trajectory column list - with the labels of an input object '
+                        '(an initial Pva whose index is in another order) the altitude lands in '
+                        'another column' % norm_text(cols[0])[:50])
         ctx.ob('TAIL-SLICE', okc, None, 'new rows carry the Trajectory columns', f=f, node=n,
-               key='columns', why='new rows do not carry the documented Trajectory columns')
+               key='columns', why=whyc)
     # concat + returned tail
     for st, conds in stores:
         if isinstance(st, ast.Assign):
